@@ -122,7 +122,7 @@ impl LangInterpreter for Italian {
             "tredici" | "tredicesim" => b.put(b"13"),
             "quattordici" | "quattordicesim" => b.put(b"14"),
             "quindici" | "quindicesim" => b.put(b"15"),
-            "sedici" | "dedicesim" => b.put(b"16"),
+            "sedici" | "sedicesim" | "dedicesim" => b.put(b"16"),
             "diciassette" | "diciassettesim" => b.put(b"17"),
             "diciotto" | "diciottesim" => b.put(b"18"),
             "diciannove" | "diciannovesim" => b.put(b"19"),
@@ -142,7 +142,7 @@ impl LangInterpreter for Italian {
             "sessantuno" | "sessantun" | "sessantunesim" => b.put(b"61"),
             "sessantotto" | "sessantottesim" => b.put(b"68"),
             "settanta" | "settantesim" => b.put(b"70"),
-            "settantuno" | "settantun" | "settanunesim" => b.put(b"71"),
+            "settantuno" | "settantun" | "settantunesim" | "settanunesim" => b.put(b"71"),
             "settantotto" | "settantottesim" => b.put(b"78"),
             "ottanta" | "ottantesim" | "ttanta" | "ttantesim" => b.put(b"80"),
             "ottantuno" | "ottantun" | "ottantunesim" | "ttantuno" | "ttantun" | "ttantunesim" => {
@@ -160,7 +160,7 @@ impl LangInterpreter for Italian {
                     Err(Error::Overlap)
                 }
             }
-            "centuno" | "centun" | "centunesimo" => b.put(b"101"),
+            "centuno" | "centun" | "centunesim" | "centunesimo" => b.put(b"101"),
             "mille" if b.is_range_free(3, 5) => b.put(b"1000"),
             "mila" if b.is_range_free(3, 5) => {
                 let peek = b.peek(3);
